@@ -12,7 +12,7 @@ EXTENDS Encoder, Json
 
 CONSTANTS Reps,          \* sequence of representative code points
           K, Shard, Cfgs, PolNames, St0, Ligatures,
-          MacroSig, EnvSig, SpecSig, HasUnknownMacro, HasUnknownEnv,
+          MacroSig, EnvSig, SpecSig, HasUnknownMacro, HasUnknownEnv, Sticky,
           MacroText, EnvText, SpecialsText, NfcTab
 
 L == INSTANCE L2T WITH VTok <- "intended", VMarker <- "intended", VVerb <- "intended", VPosNone <- "intended"
